@@ -342,32 +342,55 @@ pub struct SlowClones<S> {
     inner: S,
     ms: u64,
     not_before: Option<std::pin::Pin<Box<tokio::time::Sleep>>>,
+    /// bit k set: the k-th clone made (counting from 0, over all clones of clones) fails its
+    /// readiness check with `SErr { code: CLONE_NOT_READY, .. }` instead of becoming ready (a
+    /// connection pool that has nothing to hand out)
+    fail_mask: u8,
+    fails: bool,
+    made: Arc<AtomicU32>,
+    /// readiness failures reported so far
+    pub ready_failures: Arc<AtomicU32>,
 }
+
+pub const CLONE_NOT_READY: u32 = 7_700;
 
 impl<S> SlowClones<S> {
     pub fn new(inner: S, ms: u64) -> Self {
+        Self::failing(inner, ms, 0)
+    }
+
+    pub fn failing(inner: S, ms: u64, fail_mask: u8) -> Self {
         SlowClones {
             inner,
             ms,
             not_before: None,
+            fail_mask,
+            fails: false,
+            made: Arc::new(AtomicU32::new(0)),
+            ready_failures: Arc::new(AtomicU32::new(0)),
         }
     }
 }
 
 impl<S: Clone> Clone for SlowClones<S> {
     fn clone(&self) -> Self {
+        let k = self.made.fetch_add(1, Ordering::SeqCst);
         SlowClones {
             inner: self.inner.clone(),
             ms: self.ms,
             not_before: (self.ms > 0)
                 .then(|| Box::pin(tokio::time::sleep(Duration::from_millis(self.ms)))),
+            fail_mask: self.fail_mask,
+            fails: k < 8 && (self.fail_mask >> k) & 1 == 1,
+            made: self.made.clone(),
+            ready_failures: self.ready_failures.clone(),
         }
     }
 }
 
 impl<S, R> tower::Service<R> for SlowClones<S>
 where
-    S: tower::Service<R>,
+    S: tower::Service<R, Error = SErr>,
 {
     type Response = S::Response;
     type Error = S::Error;
@@ -379,6 +402,13 @@ where
                 return Poll::Pending;
             }
             self.not_before = None;
+        }
+        if self.fails {
+            self.ready_failures.fetch_add(1, Ordering::SeqCst);
+            return Poll::Ready(Err(SErr {
+                code: CLONE_NOT_READY,
+                serial: 0,
+            }));
         }
         self.inner.poll_ready(cx)
     }
